@@ -73,7 +73,8 @@ func VerifC05_LogicCall() {
 		sym.Assume(a1.Fees.SecurityFee != a2.Fees.SecurityFee)
 		c05Check(c05Sign(m1, id1, 0), c05Sign(m2, id2, 0), "logic-call-binds-security-fee")
 	case 6:
-		a1.SenderAddress, a2.SenderAddress = sym.Bytes("x", 20), sym.Bytes("y", 20)
+		payerLen := []int{20, 32}[sym.Choice("fee-payer-length", 2)] // account addresses are 20 bytes, contract / module-derived ones 32
+		a1.SenderAddress, a2.SenderAddress = sym.Bytes("x", payerLen), sym.Bytes("y", payerLen)
 		sym.Assume(!bytes.Equal(a1.SenderAddress, a2.SenderAddress))
 		c05Check(c05Sign(m1, id1, 0), c05Sign(m2, id2, 0), "logic-call-binds-fee-payer")
 	case 7:
